@@ -189,6 +189,81 @@ func main() {
 			evs := callEvents(f, fd.Body, []string{"bytespool.AcquireLen", "unsafe.Slice", "clear"}, nil)
 			e.Strs("inverserSliceOrder", sorted(evs), "frac/inverser.go getSlice: the pooled buffer is zeroed before newInverser fills it (0 = LID not in the reader's mapping)")
 		}
+		{ // who hands a sealed provider's pooled unpack caches back: exactly one place per provider
+			var sites []string
+			for _, rel := range []string{"frac/sealed.go", "frac/sealed_index.go"} {
+				f, err := r.Load(rel)
+				if err != nil {
+					e.Missing("sealedReleaseSites", err)
+					sites = nil
+					break
+				}
+				for _, d := range f.AST.Decls {
+					fd, ok := d.(*ast.FuncDecl)
+					if !ok || fd.Body == nil {
+						continue
+					}
+					ast.Inspect(fd.Body, func(x ast.Node) bool {
+						if c, ok := x.(*ast.CallExpr); ok && f.Render(c.Fun) == "dp.release" {
+							sites = append(sites, rel+":"+fd.Name.Name)
+						}
+						return true
+					})
+				}
+			}
+			if sites != nil {
+				e.Strs("sealedReleaseSites", sites, "functions that call sealedDataProvider.release (puts midCache/ridCache into the sync.Pool)")
+			}
+		}
+		if f, err := r.Load("fracmanager/fracmanager.go"); err != nil {
+			e.Missing("fmAppendReturns", err)
+		} else if fd := f.Func("FracManager", "Append"); fd == nil {
+			e.Missing("fmAppendReturns", "FracManager.Append not found")
+		} else {
+			// every return of the retry loop with the condition it sits under
+			var rets []ev
+			var walk func(n ast.Node, guard string)
+			walk = func(n ast.Node, guard string) {
+				ast.Inspect(n, func(x ast.Node) bool {
+					switch st := x.(type) {
+					case *ast.IfStmt:
+						if x == n {
+							return true
+						}
+						c := f.Render(st.Cond)
+						if st.Init != nil {
+							c = f.Render(st.Init) + "; " + c
+						}
+						walk(st.Body, c)
+						if st.Else != nil {
+							walk(st.Else, "else of "+c)
+						}
+						return false
+					case *ast.CaseClause:
+						if x == n {
+							return true
+						}
+						walk(&ast.BlockStmt{List: st.Body}, guard)
+						return false
+					case *ast.CommClause:
+						if x == n {
+							return true
+						}
+						g := "default"
+						if st.Comm != nil {
+							g = "case " + f.Render(st.Comm)
+						}
+						walk(&ast.BlockStmt{List: st.Body}, g)
+						return false
+					case *ast.ReturnStmt:
+						rets = append(rets, ev{st.Pos(), guard + " -> " + f.Render(st)})
+					}
+					return true
+				})
+			}
+			walk(fd.Body, "")
+			e.Strs("fmAppendReturns", sorted(rets), "FracManager.Append: the ways out of the retry loop")
+		}
 		if f, err := r.Load("fracmanager/fetcher.go"); err != nil {
 			e.Missing("fetchArrangeGuards", err)
 		} else if fd := f.Func("Fetcher", "FetchDocs"); fd == nil {
@@ -420,5 +495,5 @@ func main() {
 			e.Bool("trySetClearsUnlessSealing", total == 2 && inside == 2 && sealingDef,
 				"trySetSuicided: `sealing := f.isSealingState()` and the only field writes are sealed=nil, active=nil under `if !sealing`")
 		}
-	}, "frac/active_indexer.go", "frac/active_index.go", "frac/active.go", "frac/active_token_list.go", "frac/inverser.go", "fracmanager/fetcher.go", "storeapi/client.go", "proxy/bulk/indexer.go", "fracmanager/proxy_frac.go")
+	}, "frac/active_indexer.go", "frac/active_index.go", "frac/active.go", "frac/active_token_list.go", "frac/inverser.go", "frac/sealed.go", "frac/sealed_index.go", "fracmanager/fracmanager.go", "fracmanager/fetcher.go", "storeapi/client.go", "proxy/bulk/indexer.go", "fracmanager/proxy_frac.go")
 }
